@@ -1188,3 +1188,27 @@ Proof.
   assert (V' : SysInv cap p y') by (eapply yrun_inv; [apply (yreach_inv cap p _ Re)|exact Ru]).
   destruct (sys_progress cap p _ _ _ V' Ia E) as (y'' & X). rewrite (St a Ia) in X. discriminate.
 Qed.
+
+(** ** HandleClose happens after the read loop's last handler return
+    In stage 2 a handler call in flight is the read loop in state [RBusy prog]: the application's
+    [Close()], a drop, a failing write, the write loop's exit can all happen while it lasts.
+    [finishClosing] is past its waits only when the read loop has ended ([RDone], entered from
+    [RIdle] only, i.e. after the last [handleMessage] returned).  Hence, in every reachable
+    configuration in which HandleClose has run: the read loop has ended, no handler step is possible
+    any more — in particular no subscription can be registered afterwards (the list of goroutines
+    keeps its length under every step) — and every stream ever registered has been removed from the
+    map and stopped exactly once. *)
+Theorem ws_close_after_last_handler cap c :
+  reachable cap true c -> finished c = true ->
+  rd c = RDone /\ Forall (fun g => g_inmap g = false /\ g_stops g = 1) (gs c) /\
+  (forall l c', astep cap true c l = Some c' -> rd c' = RDone /\ List.length (gs c') = List.length (gs c)).
+Proof.
+  intros R F. pose proof (reachable_inv _ _ _ R) as J. destruct (j_fin _ J F) as (RD & _ & NM).
+  split; [exact RD|]. split.
+  - apply Forall_forall. intros g Hg. pose proof (proj1 (Forall_forall _ _) NM g Hg) as M.
+    pose proof (proj1 (Forall_forall _ _) (j_gor _ J) g Hg) as OK. unfold gor_ok in OK. rewrite M in OK. tauto.
+  - intros l c' H.
+    destruct l; simpl in H; unfold on_gor in H; rewrite ?RD in H; break_match H; try discriminate; injection H as <-;
+      unfold writer_exit, with_rd, with_gs, with_wr, with_ac, with_queue; simpl;
+      rewrite ?bc_gs, ?bc_rd, ?fo_rd, ?fo_gs, ?F, ?upd_length; auto.
+Qed.
